@@ -80,7 +80,7 @@ fn whole_file_cases(shards: &mut Shards, stats: &mut Stats) {
             for (notion, d) in defined.iter().enumerate() {
                 stats.inc("whole_file_cases");
                 if *d { stats.inc(&format!("whole_file_defined_{}_{}", NOTIONS[notion], HISTORIES[h])); }
-                let case = format!("mkCase [] 0%N [] [] [] [] [({}, {}, {})]", coq_n(h as u64), coq_n(notion as u64), coq_bool(*d));
+                let case = format!("mkCase [] 0%N [] [] [] [] [({}, {}, {})] []", coq_n(h as u64), coq_n(notion as u64), coq_bool(*d));
                 let replay = format!("{{\"whole_file\":true,\"rules_source\":{},\"history\":\"{}\",\"previous_file_hex\":\"{}\",\"block_hex\":\"{}\",\"notion\":\"{}\",\"defined_in_block_mode\":{}}}",
                     json_str(WHOLE), HISTORIES[h], hex(data), hex(blk), NOTIONS[notion], d);
                 shards.push(case, replay);
@@ -105,18 +105,24 @@ pub fn run(args: &[String]) -> i32 {
     let mut idx = 0;
     whole_file_cases(&mut shards, &mut stats);
     // minimised past failures run first: (patterns, file, blocks, context size)
-    let mut corpus: Vec<(Vec<usize>, Vec<u8>, Vec<(usize, usize)>, usize)> = vec![
+    let mut corpus: Vec<(Vec<usize>, Vec<u8>, Vec<(usize, usize)>, usize, Vec<(u64, Vec<u8>, bool)>)> = vec![
         // a greedy regexp cut by the edge of the first of two overlapping blocks: the later block extends the match
-        (vec![9], b"ghijklmnopqrstux01234yz ghijklmnopqr".to_vec(), vec![(0, 20), (9, 27)], 0),
-        (vec![9], b"ghijklmnopqrstux01234yz ghijklmnopqr".to_vec(), vec![(9, 27), (0, 20)], 0),
-        (vec![9, 0], b"ghijklmnopqrstux01234yz abc ghijklmn".to_vec(), vec![(0, 20), (9, 27)], 16),
+        (vec![9], b"ghijklmnopqrstux01234yz ghijklmnopqr".to_vec(), vec![(0, 20), (9, 27)], 0, vec![]),
+        (vec![9], b"ghijklmnopqrstux01234yz ghijklmnopqr".to_vec(), vec![(9, 27), (0, 20)], 0, vec![]),
+        (vec![9, 0], b"ghijklmnopqrstux01234yz abc ghijklmn".to_vec(), vec![(0, 20), (9, 27)], 16, vec![]),
         // a second, shorter block at the base of an earlier one (used to trip a debug assertion)
-        (vec![0], b"Lorem abc dolor".to_vec(), vec![(0, 15), (0, 5)], 0),
-        (vec![0, 1], b"Lorem abc dolor abab".to_vec(), vec![(0, 20), (0, 0), (0, 8)], 3),
+        (vec![0], b"Lorem abc dolor".to_vec(), vec![(0, 15), (0, 5)], 0, vec![]),
+        (vec![0, 1], b"Lorem abc dolor abab".to_vec(), vec![(0, 20), (0, 0), (0, 8)], 3, vec![]),
         // no block at all (finish() used to panic)
-        (vec![0, 1], b"Lorem abc dolor abab".to_vec(), vec![], 0),
+        (vec![0, 1], b"Lorem abc dolor abab".to_vec(), vec![], 0, vec![]),
         // thorough seed 1 #912: Match::data() panics (unwrap on None) after overlapping blocks
-        (vec![9, 8, 2], b" _op s.q js sjpzx01234ivjk.prqkyizpzp iyumm. g tgj_hritgrty_qrtyt hthvksvlmjkmvjy gqhynmiz ngoo.nsz_  ihk.v vuutaaabyt.m _kio.hhsklh_h tvztjh.jqlrmyyl pjgrlhku_x01".to_vec(), vec![(0, 20), (9, 119), (128, 3), (139, 24), (34, 0)], 16),
+        (vec![9, 8, 2], b" _op s.q js sjpzx01234ivjk.prqkyizpzp iyumm. g tgj_hritgrty_qrtyt hthvksvlmjkmvjy gqhynmiz ngoo.nsz_  ihk.v vuutaaabyt.m _kio.hhsklh_h tvztjh.jqlrmyyl pjgrlhku_x01".to_vec(), vec![(0, 20), (9, 119), (128, 3), (139, 24), (34, 0)], 16, vec![]),
+        // a pattern anchored at 4: a block whose base is past the anchor and that begins with the literal
+        // (a subtraction saturating at 0 would report a match at the block's base)
+        (vec![1], b"ghijabc klm abc nopq abcab".to_vec(), vec![(0, 12), (12, 14)], 0, vec![(4, b"abc".to_vec(), true)]),
+        (vec![1], b"abc hijabc abcab".to_vec(), vec![(11, 5), (4, 7), (0, 4)], 3, vec![(0, b"abc".to_vec(), true), (7, b"abc".to_vec(), true)]),
+        // base == N, base == N + 1, base < N < base + len, and the literal cut by the block's end
+        (vec![0], b"xxxxabcabc abc".to_vec(), vec![(4, 3), (5, 9), (2, 4), (7, 7)], 0, vec![(4, b"abc".to_vec(), true), (7, b"abc".to_vec(), false)]),
     ];
     while shards.total < n {
         idx += 1;
@@ -153,9 +159,36 @@ pub fn run(args: &[String]) -> i32 {
             src.push_str(&format!("rule d{} {{ strings: $p = {} condition: {} }}\n", d, POOL[chosen[i]].def, cond));
             derived.push((i, kind));
         }
+        // rules whose pattern is anchored: `$a at N` is the only use of $a; `or true` / `or $b` lets the rule
+        // match for another reason, so that whatever was recorded for $a is reported
+        let mut anchored: Vec<(u64, Vec<u8>, bool)> = vec![];
+        let mut forced_cuts: Vec<usize> = vec![];
+        if let Some(f) = &forced { anchored = f.4.clone(); }
+        else if rng.chance(2, 3) {
+            for _ in 0..(1 + rng.below(2)) {
+                let lit: &[u8] = *rng.pick(&[&b"abc"[..], &b"Lorem"[..], &b"xy"[..], &b"hello"[..]]);
+                if lit.len() + 8 >= flen { continue; }
+                let n = if rng.chance(2, 3) { *rng.pick(&[0usize, 0, 1, 2, 4, 7]) } else { rng.below((flen - lit.len()) as u64 / 2) as usize };
+                // the literal at the anchor (mostly), and copies elsewhere at which blocks will start
+                if rng.chance(3, 4) { file[n..n + lit.len()].copy_from_slice(lit); }
+                for _ in 0..(1 + rng.below(3)) {
+                    let at = n + 1 + rng.below((flen - lit.len() - n - 1) as u64 + 1) as usize;
+                    if at + lit.len() <= flen { file[at..at + lit.len()].copy_from_slice(lit); forced_cuts.push(at); }
+                }
+                // blocks with base == N, base == N + 1, base < N < base + len
+                if rng.chance(1, 2) { forced_cuts.push(n); }
+                if rng.chance(1, 3) { forced_cuts.push(n + 1); }
+                if rng.chance(1, 3) && n > 0 { forced_cuts.push(n - 1); }
+                anchored.push((n as u64, lit.to_vec(), rng.chance(1, 2)));
+            }
+        }
+        for (k, (n, lit, or_true)) in anchored.iter().enumerate() {
+            src.push_str(&format!("rule a{} {{ strings: $a = \"{}\" $b = \"ij\" condition: $a at {} or {} }}\n", k, String::from_utf8_lossy(lit), n, if *or_true { "$b or true" } else { "$b" }));
+        }
         let rules = match yara_x::compile(src.as_str()) { Ok(r) => r, Err(e) => { eprintln!("c14: generator produced a rejected source: {e}\n{src}"); return 2; } };
         // blocks: cut the file, then drop / extend / add empty / repeat / shuffle
         let mut cuts: Vec<usize> = (0..rng.below(6)).map(|_| rng.below(flen as u64 + 1) as usize).collect();
+        cuts.extend(forced_cuts.iter().copied().filter(|c| *c <= flen));
         cuts.push(0); cuts.push(flen); cuts.sort(); cuts.dedup();
         let mut blocks: Vec<(usize, usize)> = vec![];
         for w in cuts.windows(2) {
@@ -208,8 +241,18 @@ pub fn run(args: &[String]) -> i32 {
             let r = bs.finish().unwrap();
             let mut out: Vec<Vec<BlkMatch>> = (0..np).map(|_| vec![]).collect();
             let mut verdicts: Vec<bool> = vec![false; derived.len()];
+            let mut anch: Vec<Option<Vec<BlkMatch>>> = (0..anchored.len()).map(|_| None).collect();
             for rule in r.matching_rules() {
                 let id = rule.identifier();
+                if let Some(i) = id.strip_prefix("a").and_then(|s| s.parse::<usize>().ok()) {
+                    let mut v = vec![];
+                    for p in rule.patterns().filter(|p| p.identifier() == "$a") { for m in p.matches() {
+                        let (c, rg) = m.data_with_context();
+                        v.push(BlkMatch { m: (m.range().start as u64, m.range().len() as u64, m.xor_key().map_or(0, |k| k as u64 + 1)), data: m.data().to_vec(), ctx: c.to_vec(), rel: rg.start as u64 });
+                    } }
+                    anch[i] = Some(v);
+                    continue;
+                }
                 if let Some(i) = id.strip_prefix("p").and_then(|s| s.parse::<usize>().ok()) {
                     for p in rule.patterns() { for m in p.matches() {
                         let (c, rg) = m.data_with_context();
@@ -217,12 +260,12 @@ pub fn run(args: &[String]) -> i32 {
                     } }
                 } else if let Some(i) = id.strip_prefix("d").and_then(|s| s.parse::<usize>().ok()) { verdicts[i] = true; }
             }
-            (out, verdicts)
+            (out, verdicts, anch)
         }));
-        let (block_res, verdicts) = match res { Ok(x) => x, Err(e) => {
+        let (block_res, verdicts, anch) = match res { Ok(x) => x, Err(e) => {
             // a panic is a violation of its own: write a case that fails S (no block results, all per-block results lost)
             stats.inc("block_scanner_panicked");
-            let case = format!("mkCase {} {} {} {} {} [(0%N, DCountGe 0%N, false)] []", coq_bytes(&file), coq_n(ctx as u64), coq_list(&blocks, |b| format!("({}, {})", coq_n(b.0 as u64), coq_n(b.1 as u64))),
+            let case = format!("mkCase {} {} {} {} {} [(0%N, DCountGe 0%N, false)] [] []", coq_bytes(&file), coq_n(ctx as u64), coq_list(&blocks, |b| format!("({}, {})", coq_n(b.0 as u64), coq_n(b.1 as u64))),
                 coq_list(&per_block, |pb| coq_list(pb, |ms| coq_list(ms, |m| format!("({},{},{})%N", m.0, m.1, m.2)))), coq_list(&vec![0; np], |_| "[]".to_string()));
             shards.push(case, format!("{{\"index\":{},\"panic\":{},\"rules_source\":{},\"file_hex\":\"{}\",\"blocks\":{},\"context_size\":{},\"scanner\":{}}}", idx, json_str(&e), json_str(&src), hex(&file), json_str(&format!("{:?}", blocks)), ctx, used));
             continue;
@@ -237,16 +280,27 @@ pub fn run(args: &[String]) -> i32 {
         for p in &chosen { stats.inc(&format!("pattern_{}", POOL[*p].def.chars().take(14).collect::<String>())); }
         distinct.insert(format!("{:?}{:?}{}", chosen, blocks, hex(&file[..20.min(file.len())])));
 
-        let case = format!("mkCase {} {} {} {} {} {} []", coq_bytes(&file), coq_n(ctx as u64),
+        let coq_bm = |b: &BlkMatch| format!("(({},{},{})%N, {}, {}, {})", b.m.0, b.m.1, b.m.2, coq_bytes(&b.data), coq_bytes(&b.ctx), coq_n(b.rel));
+        let coq_anch = coq_list(&anchored.iter().zip(anch.iter()).collect::<Vec<_>>(), |((n, lit, _), res)| format!("({}, {}, {}, {})", coq_n(*n), coq_bytes(lit),
+            coq_bool(res.is_some()), coq_list(res.as_deref().unwrap_or(&[]), |b| coq_bm(b))));
+        if !anchored.is_empty() { stats.inc("cases_with_anchored_patterns"); }
+        for ((n, lit, _), res) in anchored.iter().zip(anch.iter()) {
+            if blocks.iter().any(|b| b.0 as u64 > *n && file[b.0..b.0 + b.1].starts_with(lit)) { stats.inc("anchored_block_past_anchor_starts_with_literal"); }
+            if blocks.iter().any(|b| b.0 as u64 == *n) { stats.inc("anchored_block_at_anchor"); }
+            if res.as_ref().map_or(false, |v| !v.is_empty()) { stats.inc("anchored_match_reported"); }
+        }
+        let case = format!("mkCase {} {} {} {} {} {} [] {}", coq_bytes(&file), coq_n(ctx as u64),
             coq_list(&blocks, |b| format!("({}, {})", coq_n(b.0 as u64), coq_n(b.1 as u64))),
             coq_list(&per_block, |pb| coq_list(pb, |ms| coq_list(ms, |m| format!("({},{},{})%N", m.0, m.1, m.2)))),
             coq_list(&block_res, |ms| coq_list(ms, |b| format!("(({},{},{})%N, {}, {}, {})", b.m.0, b.m.1, b.m.2, coq_bytes(&b.data), coq_bytes(&b.ctx), coq_n(b.rel)))),
             coq_list(&derived.iter().zip(verdicts.iter()).collect::<Vec<_>>(), |((i, k), v)| format!("({}, {}, {})", coq_n(*i as u64),
-                match k { Derived::At(a) => format!("DAt {}", coq_n(*a)), Derived::In(a, b) => format!("DIn {} {}", coq_n(*a), coq_n(*b)), Derived::CountGe(c) => format!("DCountGe {}", coq_n(*c)) }, coq_bool(**v))));
-        let replay = format!("{{\"index\":{},\"seed\":{},\"rules_source\":{},\"file_hex\":\"{}\",\"blocks\":{},\"context_size\":{},\"scanner\":\"{}\",\"block_matches\":{},\"per_block_matches\":{},\"derived\":{}}}",
+                match k { Derived::At(a) => format!("DAt {}", coq_n(*a)), Derived::In(a, b) => format!("DIn {} {}", coq_n(*a), coq_n(*b)), Derived::CountGe(c) => format!("DCountGe {}", coq_n(*c)) }, coq_bool(**v))),
+            coq_anch);
+        let replay = format!("{{\"index\":{},\"seed\":{},\"rules_source\":{},\"file_hex\":\"{}\",\"blocks\":{},\"context_size\":{},\"scanner\":\"{}\",\"block_matches\":{},\"per_block_matches\":{},\"derived\":{},\"anchored\":{}}}",
             idx, seed, json_str(&src), hex(&file), json_str(&format!("{:?}", blocks)), ctx, ["fresh", "converted_from_used_scanner", "reused_block_scanner"][used as usize],
             json_str(&format!("{:?}", block_res.iter().map(|v| v.iter().map(|b| b.m).collect::<Vec<_>>()).collect::<Vec<_>>())),
-            json_str(&format!("{:?}", per_block)), json_str(&format!("{:?} -> {:?}", derived, verdicts)));
+            json_str(&format!("{:?}", per_block)), json_str(&format!("{:?} -> {:?}", derived, verdicts)),
+            json_str(&format!("{:?}", anchored.iter().zip(anch.iter()).map(|((n, lit, _), r)| (n, String::from_utf8_lossy(lit).to_string(), r.as_ref().map(|v| v.iter().map(|b| b.m).collect::<Vec<_>>()))).collect::<Vec<_>>())));
         if samples.len() < 3 && blocks.len() >= 3 { samples.push(replay.clone()); }
         shards.push(case, replay);
     }
